@@ -1,4 +1,5 @@
 import OntVerif.Model.BlockPool
+import OntVerif.Gen.SealGates
 /-!
 # VBFT, implementation layer (C34): several nodes, each with its own block pool, one height
 
@@ -26,6 +27,8 @@ structure Node where
   recvEndorse : List Endorse := []
   /-- (proposer, version of the stored proposal, forEmpty) of the block this node sealed -/
   sealed : Option (Nat × Nat × Bool) := none
+  /-- `CandidateInfo.commitDone`, set by `setCommitDone` at a seal site whose gate said done -/
+  commitHadDone : Bool := false
   deriving Repr
 
 structure World where
@@ -53,6 +56,7 @@ inductive Op
   | commit (i : Nat) (order : List Nat)
   | deliver (k to : Nat)
   | seal (i : Nat) (order : List Nat)
+  | commitTimeout (i : Nat) (order : List Nat)
   | forgeE (sender : Nat) (m : Endorse)
   | forgeC (sender : Nat) (m : Commit)
   deriving Repr
@@ -71,6 +75,12 @@ def intakeW : Intake → String
 /-- `EndorsersSig` of a commit message: the received endorsements for that hash, later ones overwrite earlier ones -/
 def collectEndorsers (recv : List Endorse) (h : Hash) (fe : Bool) : List (Nat × Sig) :=
   recv.foldl (fun acc e => if e.hash = h && e.forEmpty == fe then setKey e.endorser e.sig acc else acc) []
+
+/-- the decision function that guards a seal site, by the name factgen found there (`Gen/SealGates.lean`); anything but
+`endorseDone` is evaluated as `commitDone` — an unexpected name makes `C34_seal_sites_guarded` fail anyway -/
+def evalGate (gate : String) (v : Variant) (w : World) (c : Cand) (order : List Nat) : Nat × Bool × Bool :=
+  if gate == "endorseDone" then endorseDone c order w.C
+  else commitDone v w.N w.C (allPeers w) c order w.C
 
 /-- one op: the resulting world and the canonical output token -/
 def step (v : Variant) (w : World) : Op → World × String
@@ -129,16 +139,31 @@ def step (v : Variant) (w : World) : Op → World × String
       let (r, c') := BlockPool.deliver v w.N n.cand (.commit s m)
       (w.setNode to { n with cand := c' }, intakeW r)
   | .seal i order =>
+    -- processMsgEvent, commit branch: the gate found at that seal site (commitDone in the shipped code), setCommitDone,
+    -- findBlockProposal, makeSealed
     if !w.isHonest i then (w, "bad") else
     let n := w.node i
-    let (p, fe, done) := commitDone v w.N w.C (allPeers w) n.cand order w.C
+    let (p, fe, done) := evalGate OntVerif.Gen.SealGates.msgCommitGate v w n.cand order
     if !done then (w, "wait") else
+    let n := { n with commitHadDone := true }
     match storedVer n.cand p with
-    | none => (w, s!"noprop:{p}")
+    | none => (w.setNode i n, s!"noprop:{p}")
     | some ver =>
       match n.sealed with
       | none => (w.setNode i { n with sealed := some (p, ver, fe) }, s!"sealed:{p}.{ver}/{if fe then 1 else 0}")
-      | some (p', _, _) => if p' == p then (w, "again") else (w, "double-seal")
+      | some (p', _, _) => if p' == p then (w.setNode i n, "again") else (w.setNode i n, "double-seal")
+  | .commitTimeout i order =>
+    -- processTimerEvent, EventCommitBlockTimeout: sealed already / commit had been done / the gate found at that seal site
+    if !w.isHonest i then (w, "bad") else
+    let n := w.node i
+    if n.sealed.isSome then (w, "late") else
+    if n.commitHadDone then (w, "hadDone") else
+    let (p, fe, done) := evalGate OntVerif.Gen.SealGates.commitTimeoutGate v w n.cand order
+    if !done then (w, "resync") else
+    let n := { n with commitHadDone := true }
+    match storedVer n.cand p with
+    | none => (w.setNode i n, s!"noprop:{p}")
+    | some ver => (w.setNode i { n with sealed := some (p, ver, fe) }, s!"sealed:{p}.{ver}/{if fe then 1 else 0}")
   | .forgeE s m =>
     if !w.isFaulty s || !(decide (s < w.N)) || !producible w m.sig then (w, "refused")
     else ({ w with msgs := w.msgs ++ [GMsg.endorse s m] }, s!"m{w.msgs.length}")
